@@ -370,12 +370,39 @@ pub fn run(session: &Session) -> i32 {
             cases.push(json!({"kind": "call", "program": program, "args": l, "arity": arity}));
         }
     }
+    // a variable the batch route knows by its declared type (int|float) and the REPL route by its value
+    for source in ["c := mut true; x := if *c { 1 } else { 2.5 };", "g := (b: bool) -> int|float { if b { return 1; } return 2.5; }; x := g(true);", "x := [1, 2.5][*(mut int 0)];"] {
+        for consumer in crate::genr::nearmiss::union_typed_consumers() {
+            // (`mut e` without a declared type is the recorded finding C17:probe:undeclared-cell-...: kept
+            // out here, kept visible by its probe below)
+            if consumer.iter().any(|st| st.contains("mut x") || st.contains("mut [x]")) {
+                continue;
+            }
+            let mut inputs: Vec<Json> = source.split_inclusive(';').filter(|t| !t.trim().is_empty()).map(|t| {
+                let name = t.trim().split(" :=").next().unwrap_or("").to_string();
+                json!({"declares": [name], "text": t.trim()})
+            }).collect();
+            for st in &consumer {
+                let declares: Vec<String> = if st.contains(" := ") && !st.starts_with('(') && !st.starts_with("match") && !st.starts_with("if") { vec![st.split(" :=").next().unwrap().to_string()] } else { vec![] };
+                inputs.push(json!({"declares": declares, "text": format!("{st};")}));
+            }
+            cases.push(json!({"kind": "repl", "files": {}, "inputs": inputs}));
+        }
+    }
     // recorded finding: the empty array literal carries the element type `!` wherever it flows, so a later
     // REPL input (which sees the value, not the declared type) sums it as ints
     cases.push(json!({"kind": "probe", "sig": "C17:probe:empty-literal-forgets-declared-element-type", "files": {}, "inputs": [
         {"declares": ["f"], "text": "f := () -> [float] { return []; };"},
         {"declares": ["e"], "text": "e := f();"},
         {"declares": [], "text": "e~ $+;"},
+    ]}));
+    // recorded finding: a cell made by `mut e` without a declared type takes the static type of e, and the
+    // REPL route computes that from the value e has
+    cases.push(json!({"kind": "probe", "sig": "C17:probe:undeclared-cell-type-follows-the-route", "files": {}, "inputs": [
+        {"declares": ["c"], "text": "c := mut true;"},
+        {"declares": ["x"], "text": "x := if *c { 1 } else { 2.5 };"},
+        {"declares": ["m"], "text": "m := mut x;"},
+        {"declares": [], "text": "if k: mut int = m { 1 } else { 0 };"},
     ]}));
     session.set_extra("enumerated_call_cases", json!(cases.len()));
     if !session.stopped() {
